@@ -81,7 +81,9 @@ def run_flow_check(pid, tier, own, closed_cases, real_cases, gen=0, gen_kw=None,
         exp = fc.expected(inst)
         lrng = random.Random(rng.random())
         cmds = [p["name"] for p in inst["procs"] if p["kind"] in ("cmd", "gofunc")]
-        vs = fc.jitter_variants(lrng, nvar, bufs=(inst.get("bufsize", 1), 1, 2, 128), procs=cmds)
+        vs = fc.jitter_variants(lrng, nvar, bufs=(inst.get("bufsize", 1), 1, 2, 128), procs=cmds, fixed_ctl=bool(inst.get("ctl")))
+        if inst.get("ctl"):       # timing scenarios keep their own buffer size
+            for v in vs: v["bufsize"] = inst.get("bufsize", 1)
         if label.startswith("cex:"):
             vs = [dict(env=v.get("env"), bufsize=inst.get("bufsize", 1), timeout=20) for v in fc.jitter_variants(lrng, 6)]
         rrs = fc.real_runs(inst, vs)
@@ -115,7 +117,7 @@ def run_flow_check(pid, tier, own, closed_cases, real_cases, gen=0, gen_kw=None,
 
 QUICK_CLOSED = [("Z1", dict(n=2)), ("Z2", dict(n=2)), ("Z3", dict(n=2)), ("Z4", dict(n=1)), ("Z5", dict(n=3, m=1)),
                 ("Z6", dict(n=2)), ("Z7", dict(n=2)), ("Z8", dict(n=2)), ("Z9", dict(n=1)), ("Z10", dict(n=3)),
-                ("Z14", dict(n=3)), ("Z15", {}), ("Z16", dict(n=2)), ("Z17", dict(n=3))]
+                ("Z14", dict(n=3)), ("Z15", {}), ("Z16", dict(n=2)), ("Z17", dict(n=3)), ("Z18", dict(n=2)), ("Z19", dict(n=2))]
 THOROUGH_CLOSED = QUICK_CLOSED + [("Z1", dict(n=3)), ("Z1", dict(n=3, buf=2)), ("Z2", dict(n=2, buf=2)), ("Z3", dict(n=2, buf=2, mx=1)),
                                   ("Z4", dict(n=2)), ("Z9", dict(n=2)), ("Z13", dict(n=1)), ("Z5b", dict(n=3, m=1)),
                                   ("Z7", dict(n=2, mx=1)), ("Z10", dict(n=4, buf=2, mx=2)), ("Z6", dict(n=3))]
@@ -141,7 +143,12 @@ def check_C04(tier):
 
 @register("C05")
 def check_C05(tier):
-    extras = [("Z1", dict(n=3), dict(ctl={"a.extra": "side.log sub/dir/side2.log"})),
+    # the shared upstream emits one result every 50 ms (task i takes i x 50 ms, plenty of slots), so the branch that ends in the
+    # sink has results to hand over while the branch of the leaf driver is still being fed
+    paced = {"mk:%d.sleep" % i: "%.2f" % (0.05 * i) for i in range(1, 11)}
+    extras = [("Z18", dict(n=10, buf=1, mx=16), dict(ctl=paced)), ("Z18", dict(n=8, buf=2, mx=16), dict(ctl=paced)),
+              ("Z19", dict(n=3), dict(ctl={"a.sleep": "0.1", "b.sleep": "0.1"})), ("Z19", dict(n=4, buf=2)),
+              ("Z1", dict(n=3), dict(ctl={"a.extra": "side.log sub/dir/side2.log"})),
               # an extra file that cannot be moved out (a directory of the same name is in the way)
               ("Z1", dict(n=2), dict(ctl={"b.extra": "report"}, mkdirs=["report"])),
               ("Z13", dict(n=4, mx=3)), ("Z13", dict(n=3, mx=4))]
